@@ -826,9 +826,25 @@ func (e *Exec) conv(tDst, tSrc types.Type, x Value) Value {
 			case fpK(t.sort) && isFloatKindB(dk):
 				return e.fromTerm(e.tt.FPConv(t, sortOfBasic(dk)))
 			case fpK(t.sort) && isIntegerKind(dk):
-				// Go: out-of-range float->int is implementation-specific; SMT-LIB leaves
-				// fp.to_sbv unspecified there too.
+				// Go: an out-of-range float->int conversion is implementation-specific:
+				// the result is then an unconstrained fresh value.
 				w := intWidth(dk)
+				{
+					tt := e.tt
+					lo, hi := tt.fpConst(t.sort, -9223372036854775808.0), tt.fpConst(t.sort, 9223372036854775808.0)
+					if isUnsignedKind(dk) && w == 64 {
+						lo, hi = tt.fpConst(t.sort, -1), tt.fpConst(t.sort, 18446744073709551616.0)
+						inRange := tt.And(tt.FPCmp("fp.gt", t, lo), tt.FPCmp("fp.lt", t, hi))
+						if !e.path.branch(e, inRange, "float->uint range") {
+							return Sym{e.path.newVar(e, "unspec", sortOfBasic(dk))}
+						}
+					} else {
+						inRange := tt.And(tt.FPCmp("fp.geq", t, lo), tt.FPCmp("fp.lt", t, hi))
+						if !e.path.branch(e, inRange, "float->int range") {
+							return Sym{e.path.newVar(e, "unspec", sortOfBasic(dk))}
+						}
+					}
+				}
 				if w < 64 {
 					// convert via 64-bit then truncate (matches amd64 behaviour in range)
 					return e.fromTermK(e.tt.Resize(e.tt.FPToBV(t, 64, true), w, false), dk)
